@@ -53,6 +53,7 @@ type schedule struct {
 	Faulty      []int
 	Twins       bool // faulty peers run as equivocating twins (else: a single instance whose messages are selectively withheld)
 	RegroupEach int  // messages between re-drawing the twins' audiences / partitions
+	Aligned     bool // split brain: the honest nodes are cut in two sides and each twin face lives in one side
 }
 
 // faceMsg remembers what each face of a twin peer said per (message type, block number).
@@ -97,6 +98,28 @@ func (cl *cluster) isFaulty(idx uint32) bool {
 
 func (cl *cluster) regroup() {
 	cl.groupA, cl.groupB, cl.part = map[uint32]bool{}, map[uint32]bool{}, map[uint32]int{}
+	if cl.sch.Aligned {
+		// every honest node is on exactly one side; side 0 hears face a, side 1 hears face b.  Both sides
+		// are non-empty, so one side (with its face) may hold a quorum while the other must not decide.
+		var honest []uint32
+		for i := 1; i <= cl.cc.N; i++ {
+			if !cl.isFaulty(uint32(i)) {
+				honest = append(honest, uint32(i))
+			}
+		}
+		cut := 1 + cl.rng.Intn(len(honest)-1)
+		perm := cl.rng.Perm(len(honest))
+		for j, pi := range perm {
+			h := honest[pi]
+			if j < cut {
+				cl.groupA[h], cl.part[h] = true, 0
+			} else {
+				cl.groupB[h], cl.part[h] = true, 1
+			}
+		}
+		cl.stats["split_brain_regroups"]++
+		return
+	}
 	for i := 1; i <= cl.cc.N; i++ {
 		if cl.isFaulty(uint32(i)) {
 			continue
@@ -199,13 +222,16 @@ func (cl *cluster) route(from *nconn, destIdx uint32, payload []byte) {
 		}
 		// twins: each face of a faulty peer talks to its own audience only (in force from the start, so
 		// that both faces follow the chain and equivocate in the same rounds)
-		if from.faulty && from.inst != "" && !c.faulty {
+		// (split-brain schedules: only during fault windows; in between both faces talk to and hear everybody,
+		// which keeps them on the chain and lets every node see their conflicting statements)
+		facesApart := !cl.sch.Aligned || cl.faultsOn.Load()
+		if facesApart && from.faulty && from.inst != "" && !c.faulty {
 			if (from.inst == "a" && !cl.groupA[c.idx]) || (from.inst == "b" && !cl.groupB[c.idx]) {
 				cl.stats["twin_face_hidden"]++
 				continue
 			}
 		}
-		if c.faulty && c.inst != "" && !from.faulty {
+		if facesApart && c.faulty && c.inst != "" && !from.faulty {
 			if (c.inst == "a" && !cl.groupA[from.idx]) || (c.inst == "b" && !cl.groupB[from.idx]) {
 				continue
 			}
@@ -386,6 +412,9 @@ func runCluster(r *vf.Run, id int, sch schedule, N, C int, blockMs uint32, wall 
 	for i := 0; i < 1200 && !cl.hostile.Load(); i++ {
 		time.Sleep(100 * time.Millisecond)
 	}
+	// VBFT servers turn "Synced" (and only then act as leader) 10 s after they were sync-ready: give
+	// the cluster that time, otherwise every height whose leader is honest waits for the 2nd proposer
+	time.Sleep(12 * time.Second)
 	if !cl.hostile.Load() {
 		r.Inconclusive(fmt.Sprintf("cluster %d (%s): never sealed 2 blocks during warm-up", id, sch.Name))
 	}
@@ -514,7 +543,11 @@ func main() {
 	r := vf.NewRun("C34", "exploration",
 		"clusters of real vbft.Server processes (N=4,C=1 and N=7,C=2) connected through a hub that applies a seeded schedule: random delays (reordering), loss, duplication, intermittent partitions of the honest nodes, and <=C Byzantine peers run either as equivocating twins (two processes with the same key, each face shown to a different audience) or as a withholding peer; every honest node's sealed (height, block hash) history is read through its ledger; verdict = agreement at every height. A run is non-trivial when >=2 honest nodes sealed >=1 common height; distinct by (cluster, schedule, height range)")
 	scratch := vf.Scratch("c34")
-	defer os.RemoveAll(scratch)
+	if os.Getenv("VERIF_C34_KEEPLOG") != "" {
+		fmt.Fprintln(os.Stderr, "c34: keeping", scratch)
+	} else {
+		defer os.RemoveAll(scratch)
+	}
 	blockMs := uint32(600)
 	wall := 40 * time.Second
 	type job struct {
@@ -529,6 +562,7 @@ func main() {
 		{Name: "twins", MaxDelayMs: 100, Twins: true, Faulty: []int{0}, RegroupEach: 150},
 		{Name: "twins+loss+partition", DropPct: 5, MaxDelayMs: 400, DupPct: 5, Twins: true, Faulty: []int{1}, Partition: true, RegroupEach: 150},
 		{Name: "withholding-peer", DropPct: 5, MaxDelayMs: 400, Faulty: []int{2}},
+		{Name: "twins-split-brain", MaxDelayMs: 60, Twins: true, Faulty: []int{3}, Partition: true, Aligned: true},
 	}
 	for _, s := range base {
 		jobs = append(jobs, job{s, 4, 1})
@@ -562,7 +596,7 @@ func main() {
 		}
 		jobs = js
 	}
-	par := 3
+	par := 4
 	vf.Parallel(len(jobs), par, func(i int) {
 		runCluster(r, i, jobs[i].sch, jobs[i].N, jobs[i].C, blockMs, wall, scratch)
 	})
@@ -576,6 +610,8 @@ func main() {
 	r.Assume("VBFT timers are wall-clock, so a schedule is not bit-reproducible; the verdict is computed offline from recorded seal histories only")
 	r.Assume("safety only: progress is not asserted; tens of schedules out of an astronomically large space")
 	r.Assume("Byzantine behaviour = equivocation by twins, selective withholding, replays/duplicates; forged-content messages are C31's subject")
-	os.RemoveAll(scratch)
+	if os.Getenv("VERIF_C34_KEEPLOG") == "" {
+		os.RemoveAll(scratch)
+	}
 	r.Finish()
 }
